@@ -256,6 +256,42 @@ def first_diff(a, b, where=""):
     return None if a == b else "%s: derived %r, declaration %r" % (where, a, b)
 
 
+def local_paths_diff(prog, it, sh, fmod):
+    """A member type written with a relative path that denotes an item of the declaring crate (`ops::Range<u32>` next to a local `mod ops`) must be that
+    item in the derived code too: the mirror compares types up to paths, so a name of the crate that resolves elsewhere inside the generated impl
+    (a glob import shadowing a local module) is checked here, with full paths."""
+    local = {a for a in prog.adts if a.startswith("verif_fixtures::")}
+    base = ["verif_fixtures"] + list(fmod) + [x for x in it["mod"].split("::") if x]
+    declared = []
+    if it["kind"] == "struct":
+        declared = [(f.get("ident"), f["ty"]) for f in it["body"]["fields"]]
+    else:
+        for v in it["variants"]:
+            declared += [(f.get("ident"), f["ty"]) for f in v["body"]["fields"]]
+    d = sh["def"]
+    derived = [f for f in d.get("fields", [])] if d["k"] == "composite" else [f for v in d.get("variants", []) for f in v["fields"]]
+    all_derived = " ".join((f["ty"] or {}).get("ty", "") for f in derived if isinstance(f["ty"], dict))
+    for name, text in declared:
+        for m in re.finditer(r"(?<![\w:])([A-Za-z_]\w*(?:\s*::\s*[A-Za-z_]\w*)+)", text):
+            rel = re.sub(r"\s+", "", m.group(1))
+            if rel.split("::")[0] in ("core", "std", "alloc", "crate", "self", "super", "scale_info", "info", "scale"):
+                continue
+            # resolved from the declaring module outwards
+            cand = None
+            for k in range(len(base), 0, -1):
+                c = "::".join(base[:k] + [rel])
+                if c in local:
+                    cand = c
+                    break
+            if cand is None:
+                continue
+            mine = [f for f in derived if f["name"] == name] if name is not None else []
+            hay = " ".join((f["ty"] or {}).get("ty", "") for f in mine if isinstance(f["ty"], dict)) if mine else all_derived
+            if cand not in hay:
+                return "member %s is declared with the crate's own `%s` (= %s) but the derived code refers to %s" % (name if name is not None else "<unnamed>", rel, cand, hay[:120] or "<nothing>")
+    return None
+
+
 def corpus(chk, tier):
     chk.rule("R9.T", "for every declaration of the corpus: shape(derived type_info MIR) == mirror(declaration syntax tree): path with replace_segment, "
              "type parameters (None when skipped), members in order (skip / rename / compact / PhantomData kept for the builder to erase), type names = "
@@ -310,6 +346,8 @@ def corpus(chk, tier):
         diff = first_diff(got, want, full)
         if diff:
             disagreements += 1
+        if diff is None:
+            diff = local_paths_diff(prog, it, sh, fmod)
         chk.expect(diff is None, "R9.T", "decl:" + full, where, diff or "derived shape == declaration mirror (%d members)" % _count(want), None)
         # the derive's template declares Identity = Self
         if ident is not None:
